@@ -385,6 +385,7 @@ def run(spec, order, min_conf, max_depth, upgrade_at=None, mine_at=None, refuse_
                 confs = [n.seed_confidences.get(seed_id, 0) for n in a.nodes.values()]
                 noisy_checks.append([[f2q(c) for c in confs], a.confidence])
                 attrs.append({'name': a.name, 'value': a.value, 'confidence': a.confidence, 'node_confs': sorted(confs),
+                              'node_ids': sorted(a.nodes.keys()),
                               'names': sorted([k, v] for k, v in a.concept_names.items())})
             seed_present = any(seed_id in a.nodes for a in inst.attributes)
             seed_conf = None
@@ -396,6 +397,9 @@ def run(spec, order, min_conf, max_depth, upgrade_at=None, mine_at=None, refuse_
                           'names': sorted([k, v] for k, v in inst.get_concept_names().items())})
         taints = sorted([n.id, n.taint] for n in nodes)
         from edxml.miner.inference import RelationInference
+        # what extract_result_set reads (the knowledge base was filled by mine() with the same minimum)
+        extract_in = [{'id': n.id, 'attr': n.attribute_name, 'value': n.value, 'sc': [[sid, f2q(c)] for sid, c in n.seed_confidences.items()]}
+                      for n in sorted(nodes, key=lambda n: n.id)]
         graph_view = {'nodes': sorted(n.id for n in nodes),
                       'links': sorted({(e.source.id, e.target.id) for n in nodes for e in n.get_inferences() if isinstance(e, RelationInference)})}
         # per node: its seed confidences in the order the seeds were mined (dict order), its taint, whether it was a seed
@@ -431,7 +435,7 @@ def run(spec, order, min_conf, max_depth, upgrade_at=None, mine_at=None, refuse_
         return {'skipped': False, 'outcome': 'inspect-raised:' + type(ex).__name__ + ':' + str(ex)[:100]}
     return {'skipped': False, 'outcome': 'ok', 'instances': insts, 'taints': taints, 'uncovered': uncovered, 'json_same': json_same, 'titles_same': titles_same,
             'universals': uni, 'noisy_checks': noisy_checks, 'taint_checks': taint_checks, 'n_nodes': len(nodes),
-            'passes': tracer.passes, 'picks': tracer.picks, 'trace_problem': tracer.problem, 'graph': graph_view,
+            'passes': tracer.passes, 'picks': tracer.picks, 'trace_problem': tracer.problem, 'graph': graph_view, 'extract_in': extract_in,
             'late_missing': sorted(v for v in late_values if not any(a['value'] == v for inst in insts for a in inst['attrs'])),
             # coverage, from the events themselves (not from the nodes the graph happens to hold): every object of a property that
             # is associated with a concept
@@ -449,7 +453,8 @@ class C20(Property):
         'round_decreases', 'rounds_bounded', 'universals_exact', 'tenth_unit',
         'pickOk_sound', 'scoped_checker_refines', 'never_crosses_inter', 'inScope_unit', 'search_wellformed', 'search_terminates', 'search_sorted', 'search_visited_final', 'checker_exact', 'coverage',
         'construct_covers', 'nodes_sound', 'nodes_concept', 'links_closed', 'links_symm', 'links_complete', 'graph_covers', 'graph_nodes_event',
-        'old_construction_misses', 'old_agrees_when_sources_present',
+        'old_construction_misses', 'old_agrees_when_sources_present', 'objects_covered',
+        'extract_mem', 'extract_meets_minimum', 'extract_shape', 'covered_in_instance',
     )
     level_text = ('PARTIAL. Lean 4 theorems over (a) the confidence arithmetic of the miner on exact rationals: every noisy-or '
                   'combination (attribute, concept name and related concept confidences), the taint formula as the SDK computes '
@@ -475,7 +480,13 @@ class C20(Property):
                   '(construct_covers, graph_covers: the first half of coverage), nodes stand for objects the event holds and carry a '
                   'concept of their property, links join different nodes of one event in both directions and every source object of '
                   'a concept relation with every target object; the node and link sets of every real run are compared with the '
-                  'model (op construct). Hub construction and the JSON round trip are judged by the independent oracle only: '
+                  'model (op construct); objects_covered composes it with seed selection and coverage: once mining without a seed '
+                  'has stopped, every such object has a node with a confidence of at least the minimum for some mined seed; (f) '
+                  'extract_result_set: a node is reported under attribute (name, value) of the instance of a seed exactly when its '
+                  'confidence for that seed is not below the minimum (extract_mem), so what coverage concludes puts the node into '
+                  'an instance (covered_in_instance), one instance per seed, one attribute per name and value, none empty '
+                  '(extract_shape); the result set of every real run is compared with the model (op extract, on the exact values '
+                  'of the floats). Hub construction and the JSON round trip are judged by the independent oracle only: '
                   'tested, not proved.')
     level_note = ('PARTIAL: hub construction (which hubs exist when a pass starts) is an input of the '
                   'model, not modelled; binary floating point is modelled by exact '
@@ -534,7 +545,15 @@ class C20(Property):
         return {'skipped': False, 'outcome': 'ok', 'noisy': [round(c[1], 9) for c in r['noisy_checks']],
                 'taint': [round(c[1], 9) for c in r['taint_checks']],
                 'graph': {'nodes': r['graph']['nodes'], 'links': [list(x) for x in r['graph']['links']]},
+                'result_set': self.result_view(r),
                 'taint_ok': self.taint_consistent(r), 'universals': r['universals'], 'search': self.search_view(r), 'picks': ['ok'] * len(r['picks']), 'detail': r}
+
+    @staticmethod
+    def result_view(r):
+        # nodes are numbered by their position in the sorted list of node ids (as in the request to the model)
+        num = {n['id']: k for k, n in enumerate(r['extract_in'])}
+        return sorted([num.get(i['seed'], i['seed']), sorted([a['name'], a['value'], sorted(num.get(k, k) for k in a['node_ids'])] for a in i['attrs'])]
+                      for i in r['instances'])
 
     @staticmethod
     def taint_consistent(r):
@@ -559,6 +578,11 @@ class C20(Property):
         evs = []
         # the graph: which nodes and links the events yield
         reqs = [construct_request(case)]
+        # the result set: which node is reported under which attribute of which instance
+        num = {n['id']: k for k, n in enumerate(r['extract_in'])}
+        reqs.append({'op': 'extract', 'min': f2q(case['min_conf']),
+                     'nodes': [{'id': num[n['id']], 'attr': n['attr'], 'value': n['value'],
+                                'sc': [[num[sid], c] for sid, c in n['sc'] if sid in num]} for n in r['extract_in']]})
         # universals are mined per event with the relations of its own event type: one request per event type
         up = case.get('upgrade_at')
         ordered = [case['spec']['events'][i] for i in case['order']]
@@ -587,7 +611,8 @@ class C20(Property):
                  for ok in replies[-1]['ok']]
         graph = {'nodes': sorted(set(replies[0]['nodes'])), 'links': sorted({(a, b) for a, b in replies[0]['links']})}
         graph['links'] = [list(x) for x in graph['links']]
-        replies = replies[1:-1]
+        result_set = sorted([i['seed'], sorted([a[0], a[1], sorted(a[2])] for a in i['attrs'])] for i in replies[1]['instances'])
+        replies = replies[2:-1]
         n_search = sum(1 for rep in replies if 'valid' in rep)
         arith = replies[len(replies) - n_search - 1]
         for rep in replies[:len(replies) - n_search - 1]:
@@ -601,7 +626,7 @@ class C20(Property):
                 search.append(['accepted', [None if c is None else float(Fraction(int(c[0]), int(c[1]))) for c in rep['sc']]])
             else:
                 search.append(['not an execution of the reasoning pass: entry %d of the trace (%s)' % (rep['firstBad'], rep.get('why')), None])
-        return {'skipped': False, 'outcome': 'ok', 'noisy': noisy, 'taint': taint, 'taint_ok': True, 'graph': graph,
+        return {'skipped': False, 'outcome': 'ok', 'noisy': noisy, 'taint': taint, 'taint_ok': True, 'graph': graph, 'result_set': result_set,
                 'universals': {k: sorted(list(x) for x in v) for k, v in uni.items()}, 'search': search, 'picks': picks, 'detail': 'undecided'}
 
     def fill_undecided(self, case, obs, pred):
